@@ -1,6 +1,7 @@
 #!/bin/bash
 # maintenance helper: evaluate every seeded change against every check on scratch copies of /repo
 # (never touches /repo's working tree).  tools/matrix.sh [parallelism] [names...]  -> seeded/<name>/detected.txt
+# MATRIX_CHECKS="own" runs only the check of the property named in meta.json (default: all 20 checks)
 par="${1:-4}"; shift
 cd "$(dirname "$0")/.."
 names="$*"; [ -z "$names" ] && names=$(ls seeded)
@@ -12,7 +13,10 @@ one() {
   git -C "$wt" apply "/verif/seeded/$name/patch.diff" || { echo "$name: patch does not apply"; git -C /repo worktree remove --force "$wt"; return; }
   mkdir -p "$wt/.vroot"; cp /verif/KNOWN_FINDINGS.txt "$wt/.vroot/"
   out="/verif/seeded/$name/detected.txt"; : > "$out.tmp"
-  for id in C01 C02 C03 C04 C05 C06 C07 C08 C09 C10 C11 C12 C13 C14 C15 C16 C17 C18 C19 C20; do
+  ids="C01 C02 C03 C04 C05 C06 C07 C08 C09 C10 C11 C12 C13 C14 C15 C16 C17 C18 C19 C20"
+  if [ "${MATRIX_CHECKS:-all}" = "own" ]; then ids=$(python3 -c "import json;print(json.load(open('/verif/seeded/$name/meta.json'))['property'])"); elif [ -n "${MATRIX_CHECKS:-}" ] && [ "${MATRIX_CHECKS}" != "all" ]; then ids="$MATRIX_CHECKS"; fi
+  echo "# checks run: $ids" >> "$out.tmp"
+  for id in $ids; do
     o=$(VERIF_REPO="$wt" VERIF_ROOT="$wt/.vroot" ./check $id quick 2>&1); rc=$?
     if [ $rc -eq 1 ]; then echo "$id FIRED $(echo "$o" | grep -c '^VIOLATION') $(echo "$o" | grep '^VIOLATION' | head -3 | sed 's/.* sig=\([^ ]*\) .*/\1/' | tr '\n' ' ')" >> "$out.tmp"
     elif [ $rc -ne 0 ]; then echo "$id rc=$rc $(echo "$o" | tail -1 | cut -c1-120)" >> "$out.tmp"; fi
